@@ -10,7 +10,9 @@ import (
 	"log"
 	"net/http"
 	"net/http/httptest"
+	"os"
 	"strings"
+	"syscall"
 	"testing"
 	"time"
 
@@ -35,7 +37,15 @@ type eng struct{}
 func (eng) Meta() core.Meta                             { return Meta() }
 func (eng) Gen(c, tier string) (json.RawMessage, error) { return Gen(c, tier) }
 func (eng) Run(tape json.RawMessage, res *core.Result)  { run(tape, res) }
-func TestSim(t *testing.T)                              { engine.Main(t, eng{}) }
+func TestSim(t *testing.T) {
+	if os.Getenv("VERIF_MODE") == "run" {
+		// a damaged PAC can make the NDR decoder of the dependency rpc/v2 ask for tens of gigabytes (a
+		// known finding of C04): let that fail at once instead of filling the sandbox's memory
+		lim := syscall.Rlimit{Cur: 6 << 30, Max: 6 << 30}
+		syscall.Setrlimit(syscall.RLIMIT_AS, &lim)
+	}
+	engine.Main(t, eng{})
+}
 
 // ---- the application's session store
 type sess struct {
